@@ -153,7 +153,7 @@ def judge(w, scn, res):
 def gen_raw(rng, seed):
     """The same property one layer down: ZMQSender / ZMQReceiver used directly (no Filter loop), so that send() may block for
     a long time (the documented timeout=None form) and a stalled consumer may still send out-of-band notes upstream."""
-    variant = rng.choice(['plain', 'common-pause', 'oob-notes', 'common-pause', 'oob-notes'])
+    variant = rng.choice(['plain', 'common-pause', 'oob-notes', 'common-pause', 'oob-notes', 'sibling-pause', 'sibling-pause'])
     stall_after = rng.randint(6, 12)
     stall_secs = rng.choice([20, 40])
     blocking = rng.random() < 0.7
@@ -169,6 +169,13 @@ def gen_raw(rng, seed):
         secs = rng.choice([2.0, 3.0, 4.0])
         A['raw']['pauses'] = [[n0, secs]]
         B['raw']['pauses'] = [[n0, secs]]
+    if variant == 'sibling-pause':
+        # only the sibling stops asking for a few seconds: A sits in recv() re-requesting the same id all that time (the publisher
+        # reads those requests while it has nothing to publish), gets one more frame when B comes back and then stalls for good
+        n0 = stall_after - 1
+        B['raw']['pauses'] = [[n0, rng.choice([2.0, 3.0, 4.0])]]
+        B['raw']['low_latency'] = True          # no prefetch: while B pauses there is no request of it pending, so the publisher really waits
+        A['raw']['low_latency'] = rng.random() < 0.6
     if variant == 'oob-notes':
         A['raw']['oob_every_ms'] = rng.choice([50, 200])
     link = {'max_delay_ms': rng.choice([0, 10, 50]), 'conn_ms': [0, 30], 'sub_ms': [0, 20]}
